@@ -301,6 +301,11 @@ fn run_wrapped(v: &[u64]) {
         let mut raw2 = HuffmanContainer::<u16>::default();
         let j = raw2.push(x);
         vassert!(raw2.index(j).into_owned() == a, "VF:wrapped.region_to_region_raw");
+        // the copy equals the original as an item, whatever the receiving container's code book
+        let mut other2 = HuffmanContainer::merge_regions(std::iter::once(&train(&skew)));
+        let jo = other2.push(x);
+        let je = enc2.push(x);
+        vassert!(other2.index(jo) == x && x == other2.index(jo) && raw2.index(j) == x && enc2.index(je) == x, "VF:wrapped.region_to_region_eq");
     }
 }
 fn t_clone(prof: &[(u16, u64)]) -> HuffmanContainer<u16> {
@@ -1153,10 +1158,40 @@ fn doms_coded_life() -> Vec<Vec<u64>> {
     vec![range(8), range(4), range(6), vec![0, 5], vec![0, 3], range(6), vec![1, 4]]
 }
 
+// C18 for CodecRegion<DictionaryCodec> over a history long enough to cross the heavy-hitter summary's compaction
+fn run_heap_codec(v: &[u64]) {
+    crate::section("VF:heap.codec");
+    let n = [40usize, 1100, 2300][v[0] as usize];
+    let mut r = CR::default();
+    let mut last = 0usize;
+    for i in 0..n {
+        let x = [b'k', (i % 251) as u8, (i / 251) as u8, (i % (v[1] as usize + 1)) as u8];
+        let _ = r.push(&x[..]);
+        let hp = collect_heap(|cb| r.heap_size(cb));
+        vassert!(hp.iter().all(|p| p.0 <= p.1), "VF:heap.codec.used_exceeds_capacity");
+        let used: usize = hp.iter().map(|p| p.0).sum();
+        vassert!(used >= last, "VF:heap.codec.used_decreased_on_push");
+        vassert!(used >= 4 * (i + 1), "VF:heap.codec.used_below_payload");
+        last = used;
+    }
+    let before = collect_heap(|cb| r.heap_size(cb));
+    r.clear();
+    let after = collect_heap(|cb| r.heap_size(cb));
+    vassert!(after.len() == before.len() && before.iter().zip(after.iter()).all(|(b, a)| a.1 >= b.1), "VF:heap.codec.capacity_shrank_on_clear");
+}
+fn pre_heap_codec(v: &[u64]) -> bool {
+    v[0] < 3 && v[1] < 3
+}
+fn doms_heap_codec() -> Vec<Vec<u64>> {
+    vec![range(3), range(3)]
+}
+
 pub fn harnesses() -> Vec<H> {
     vec![
         H { name: "huffman_quick", props: &["C06", "C01", "C02", "C08", "C10"], nargs: 6, pre: pre_huff, doms: doms_huff_quick, run: run_huff, panic_ok: false,
             bound: "16 frequency profiles (1..4 symbols with counts 1..4, Fibonacci 10/16/21 symbols, 257/600 equiprobable u16) x all pairs of 12 item shapes (empty .. 24 symbols; every start/end bit offset; 0,1,2+ whole bytes) + third item in {empty, 8 symbols} x {one source; two generations; two sources over the same alphabet with different count shapes; three sources raw/empty/coded} x symbol outside the statistics; clear of a coded container before its first symbol; code books built from no statistics (zero sources, empty sources) store and return the empty item", kani: false },
+        H { name: "heap_codec", props: &["C18"], nargs: 2, pre: pre_heap_codec, doms: doms_heap_codec, run: run_heap_codec, panic_ok: false,
+            bound: "CodecRegion<DictionaryCodec>: 40 / 1100 / 2300 distinct 4-byte items: after every push used <= capacity per pair, summed used bytes never decrease and are at least the payload; after clear no capacity shrinks", kani: false },
         H { name: "coded_life", props: &["C08", "C10"], nargs: 7, pre: pre_coded_life, doms: doms_coded_life, run: run_coded_life, panic_ok: true,
             bound: "8 compositions with a coded leaf (Option / Slice / String / ConsecutiveIndexPairs / CollapseSequence over CodecRegion<DictionaryCodec>; Option / Slice over HuffmanContainer<u8>; Result of both): history of 3 pool values (incl. tag-like literals, the empty string, repeated strings), then clear (two cycles) / clear of a merged region / reserve_regions on an empty or one-item region (dictionary compositions only), then 4 further pushes compared with a default (or never-reserving) twin: same acceptance, same reads", kani: false },
         H { name: "huffman_full", props: &["C06"], nargs: 6, pre: pre_huff, doms: doms_huff, run: run_huff, panic_ok: false,
@@ -1177,7 +1212,7 @@ pub fn harnesses() -> Vec<H> {
             bound: "CodecRegion<DictionaryCodec>: 8 x 2 training sets over 1..2 source regions; 20 probes (empty, dictionary entries, prefixes/extensions, first byte an assigned tag, eight one-byte strings) x 3; second merge generation; reserve_regions on the merged region and on a source (twice), earlier reads unchanged and a further push like on a twin; clear; every push refused or read back exactly, heavy hitters cost 1 byte", kani: false },
         H { name: "dictionary_full", props: &["C07"], nargs: 7, pre: pre_dict, doms: doms_dict, run: run_dict, panic_ok: false,
             bound: "CodecRegion<DictionaryCodec>: 8 x 3 training sets over 1..2 source regions; probes: all 256 one-byte strings, dictionary entries, their prefixes/extensions, strings whose first byte is an assigned tag, the empty string (268 probes x 5); second merge generation; clear; every push refused or read back exactly, heavy hitters cost 1 byte", kani: false },
-        H { name: "dictionary_many", props: &["C07", "C01"], nargs: 4, pre: pre_many, doms: doms_many, run: run_many, panic_ok: false,
+        H { name: "dictionary_many", props: &["C07", "C01", "C10"], nargs: 4, pre: pre_many, doms: doms_many, run: run_many, panic_ok: false,
             bound: "1023 / 1024 / 1500 / 2600 distinct strings plus a heavy hitter at 1/2, 1/3, 1/4 of the pushes that sorts before / between / after them (crosses MisraGries::tidy), one or two source regions, merged, then probed; and 3-4 source regions with 257/260/300 private strings (x3) each plus a shared string (x2) that dominates only their union; three generations with 260-400 distinct values plus one value that is a dictionary hit in the second generation and has no tag in the third: everything a source stored is accepted and read back", kani: false },
     ]
 }
